@@ -31,6 +31,7 @@ import (
 	"go.uber.org/atomic"
 
 	"github.com/tochemey/goakt/v4/internal/types"
+	"github.com/tochemey/goakt/v4/internal/verifhook"
 	"github.com/tochemey/goakt/v4/log"
 	"github.com/tochemey/goakt/v4/passivation"
 )
@@ -174,6 +175,7 @@ func (m *passivationManager) Register(participant passivationParticipant, strate
 	default:
 		delete(m.entries, key)
 	}
+	verifhook.At("pm.register", participant, int64(entry.index), 0)
 }
 
 // Unregister removes a participant from any passivation bookkeeping.
@@ -196,6 +198,7 @@ func (m *passivationManager) Unregister(participant passivationParticipant) {
 		entry.index = -1
 	}
 	delete(m.entries, key)
+	verifhook.At("pm.unregister", participant, 0, 0)
 }
 
 // Pause temporarily removes a participant from scheduling so passivation cannot fire.
@@ -218,6 +221,7 @@ func (m *passivationManager) Pause(participant passivationParticipant) {
 		cheaps.Remove(&m.queue, entry.index)
 		entry.index = -1
 	}
+	verifhook.At("pm.pause", participant, 0, 0)
 }
 
 // Resume reactivates scheduling for a paused participant.
@@ -246,6 +250,7 @@ func (m *passivationManager) Resume(participant passivationParticipant) bool {
 		entry.enqueued = true
 		messageEntry = entry
 	}
+	verifhook.At("pm.resume", participant, int64(entry.index), 0)
 	m.mu.Unlock()
 
 	if messageEntry != nil {
@@ -263,6 +268,7 @@ func (m *passivationManager) Touch(participant passivationParticipant) {
 
 	m.mu.Lock()
 	defer m.mu.Unlock()
+	verifhook.At("pm.touch", participant, 0, 0)
 
 	entry, ok := m.entries[key]
 	if !ok || entry.paused {
@@ -276,6 +282,7 @@ func (m *passivationManager) Touch(participant passivationParticipant) {
 	entry.refreshDeadline()
 	cheaps.Fix(&m.queue, entry.index)
 	m.notifyLocked()
+	verifhook.At("pm.touched", participant, 0, 0)
 }
 
 // run multiplexes between timeouts, message-count triggers, and shutdown signals.
@@ -347,6 +354,8 @@ func (m *passivationManager) nextEntry() (*passivationEntry, time.Duration) {
 }
 
 func (m *passivationManager) trigger(expected *passivationEntry) {
+	verifhook.At("pm.trigger", expected.target, 0, 0)
+	defer verifhook.At("pm.trigger.end", expected.target, 0, 0)
 	for {
 		m.mu.Lock()
 		if len(m.queue) == 0 {
@@ -369,8 +378,10 @@ func (m *passivationManager) trigger(expected *passivationEntry) {
 		cheaps.Pop(&m.queue)
 		entry.index = -1
 		m.mu.Unlock()
+		verifhook.At("pm.pop", entry.target, 0, 0)
 
 		passivated := m.passivate(entry)
+		verifhook.At("pm.relock", entry.target, 0, 0)
 
 		m.mu.Lock()
 		current, ok := m.entries[entry.id]
@@ -476,6 +487,7 @@ func (m *passivationManager) MessageProcessed(pid *PID) {
 
 	entry.enqueued = true
 	m.mu.Unlock()
+	verifhook.At("pm.count.signal", pid, 0, 0)
 	m.signalMessageEntry(entry)
 }
 
@@ -486,6 +498,8 @@ func (m *passivationManager) processMessageEntry(entry *passivationEntry) {
 	if entry == nil {
 		return
 	}
+	verifhook.At("pm.msg", entry.target, 0, 0)
+	defer verifhook.At("pm.msg.end", entry.target, 0, 0)
 
 	m.mu.Lock()
 	current, ok := m.entries[entry.id]
@@ -499,8 +513,10 @@ func (m *passivationManager) processMessageEntry(entry *passivationEntry) {
 		return
 	}
 	m.mu.Unlock()
+	verifhook.At("pm.msg.go", entry.target, 0, 0)
 
 	passivated := m.passivate(entry)
+	verifhook.At("pm.msg.relock", entry.target, 0, 0)
 
 	m.mu.Lock()
 	entry.enqueued = false
